@@ -1,6 +1,7 @@
 (* C13 -- the constant-signal helper injects the same signal as general injection. *)
 From Coq Require Import List Arith ZArith QArith Qround Qabs.
 From SV Require Import Base.Tab Base.Rounding Model.Signal Model.ConstSignal Proofs.Signal Proofs.ConstSignal.
+From SV Require Import Kernels.Gen13 Proofs.K13.
 Import ListNotations.
 Local Open Scope Q_scope.
 
@@ -43,6 +44,12 @@ Print Assumptions c13_zero_drift_smear.
 Theorem c13_mirror : forall pdo : Q, qmin (- pdo) 0 == - qmax pdo 0 /\ qmax (- pdo) 0 == - qmin pdo 0.
 Proof. exact box_mirror. Qed.
 Print Assumptions c13_mirror.
+
+(* the sub-step expression of the CURRENT source (Kernels/Gen13.v, regenerated on every run) is the model's *)
+Theorem c13_source_substeps : forall drift unit, ~ (unit == 0)%Q -> (0 < unit)%Q ->
+  src_smearing_subsamples drift unit = substeps (drift / unit).
+Proof. exact k_smearing_subsamples. Qed.
+Print Assumptions c13_source_substeps.
 
 Example c13_example :
   (* width 0.4 channel, start 0.49 channel above channel 10, drift 0.1 ch/step over 4 rows: pixel (3,11) is in the box *)
